@@ -200,7 +200,14 @@ pub fn derive_cfg(job: &Job) -> SimCfg {
         untitled_docs: r.chance(1, 8),
         preexisting_dicts: r.chance(1, 3),
         big_docs: r.chance(1, 10),
+        config_errors: false,
     };
+    if job.prop == "C09" && r.chance(1, 8) {
+        // an editor without workspace/configuration support: every pull is answered with an error
+        gen_cfg.config_errors = true;
+        gen_cfg.weights.config = 0;
+        gen_cfg.use_paths = false;
+    }
     gen_cfg.end_with_shutdown = {
         let f = job.params.get("focus").and_then(|v| v.as_str()).unwrap_or(mode);
         f == "stats" || (f == "paths" && r.chance(1, 2))
@@ -306,6 +313,7 @@ impl<'j> Sim<'j> {
         let mut client = Client::default();
         client.docs = workload::initial_docs(&cfg.gen_cfg, &mut rng_work);
         client.settings = workload::initial_settings(&cfg.gen_cfg, &mut rng_work);
+        client.config_errors = cfg.gen_cfg.config_errors;
         client.next_id = 1;
         let mut preexisting: Vec<(String, Vec<String>)> = vec![];
         if cfg.gen_cfg.preexisting_dicts && cfg.gen_cfg.paths_at_start {
@@ -965,6 +973,7 @@ impl<'j> Sim<'j> {
         self.res.count("steps", self.step);
         self.res.count("quiescent_points", self.quiescent_points);
         self.res.count("answers_out_of_order", c.answers_out_of_order);
+        self.res.count("config_answered_with_error", c.error_answers);
         self.res.count("replay_divergences", self.diverged);
         if self.max_outstanding_cfg >= 2 {
             self.res.count("handlers_overlapped_2", 1);
